@@ -632,9 +632,10 @@ Definition strategy (v : srv) (choices : list N) (hist : list (list outev)) : li
    The registration machine above answers every nick rejection with a NICK
    (do43x s).  The refinement below adds what _getNextNick really does: it pops
    the configured alternates (supybot.nick.alternates), and once they are
-   exhausted its first candidate is the configured nick itself -- which
-   `assert newNick != self.nick` refuses (AssertionError, no NICK is sent) --
-   and after that random variants, which are always new.  The nick state lives
+   exhausted it draws random variants of the configured nick until one is
+   neither in triedNicks nor the current nick: always a new nick (the
+   configured nick itself is no longer proposed: fix of finding C08.F26, so
+   [tried] stays false).  The nick state lives
    outside [st]: no other handler reads it; Irc.reset() re-initialises it and a
    successful do376 reloads the alternates. *)
 Record nk := Nk { alts : nat; tried : bool }.     (* len(alternateNicks); the configured nick is in triedNicks *)
@@ -648,7 +649,7 @@ Definition is_abort (o : outev) : bool := match o with Reconnect _ _ => true | D
 Definition next_nick (n : nk) : nk * bool :=
   match alts n with
   | S a => (Nk a (tried n), true)
-  | O => if tried n then (n, true) else (Nk 0 true, false)
+  | O => (n, true)
   end.
 (* na = the number of configured alternates *)
 Definition stepN (c : cfg) (na : nat) (sn : st * nk) (m : inmsg) : (st * nk) * list outev * option exn :=
